@@ -16,8 +16,8 @@ import (
 	"math"
 	"math/rand/v2"
 	"os"
-	"sort"
 	"runtime"
+	"sort"
 	"strings"
 	"sync"
 	"syscall"
@@ -40,7 +40,11 @@ type c20Plan struct {
 	Overlap       bool
 	NoOld         bool // non-staged only: there is no previous generation to retire (oldC == nil)
 	OldCloseErr   bool // the old generation's Close() reports an error (failed deferred clean-up / close-tail timeout)
-	Probe         map[string]int // stage -> number of concurrent refused requests fired while the worker is parked
+	// SlowWithSessions: the reload needed more than the total switch budget (10 s) before the hand-off,
+	// so the old generation's drain budget is zero, and the old generation still has sessions that
+	// do not end by themselves
+	SlowWithSessions bool
+	Probe            map[string]int // stage -> number of concurrent refused requests fired while the worker is parked
 }
 
 func (p *c20Plan) String() string {
@@ -57,6 +61,9 @@ func (p *c20Plan) String() string {
 	}
 	if p.OldCloseErr {
 		s += "/old-close-error"
+	}
+	if p.SlowWithSessions {
+		s += "/slow-reload-lingering-sessions"
 	}
 	return s
 }
@@ -79,6 +86,7 @@ func c20GenPlan(r *rand.Rand) *c20Plan {
 	p.Retire = []string{"fast", "fast", "slow", "slow", "late"}[r.IntN(5)]
 	p.Abort, p.Overlap = r.IntN(3) == 0, r.IntN(2) == 0
 	p.OldCloseErr = r.IntN(4) == 0
+	p.SlowWithSessions = r.IntN(5) == 0
 	for _, st := range []string{"queued", "active", "handoff", "serving", "retiring"} {
 		if r.IntN(4) == 0 {
 			p.Probe[st] = 1 + r.IntN(4)
@@ -88,19 +96,20 @@ func c20GenPlan(r *rand.Rand) *c20Plan {
 }
 
 type c20Round struct {
-	mon       *vk.Monitor
-	r         *rand.Rand
-	e         *c20Env
-	no        int
-	plans     []string
-	lateGates []chan struct{}
-	allGates  []chan struct{}
-	opened    map[chan struct{}]bool
-	dones     []<-chan struct{}
-	stopCycle int
-	broken    bool
-	nsig      int
-	violated  bool
+	mon             *vk.Monitor
+	r               *rand.Rand
+	e               *c20Env
+	no              int
+	plans           []string
+	lateGates       []chan struct{}
+	sessionReleases []func()
+	allGates        []chan struct{}
+	opened          map[chan struct{}]bool
+	dones           []<-chan struct{}
+	stopCycle       int
+	broken          bool
+	nsig            int
+	violated        bool
 }
 
 func (h *c20Round) witness(extra map[string]any) map[string]any {
@@ -301,6 +310,17 @@ func (h *c20Round) runCycle(p *c20Plan) *c20Receipt {
 		oldC = control.VerifC20ControlPlaneWithCloseError(fmt.Errorf("injected: old generation close did not finish cleanly"))
 		h.mon.Count("old_generation_close_error_planned", 1)
 	}
+	if p.SlowWithSessions {
+		var cerr error
+		if p.OldCloseErr {
+			cerr = fmt.Errorf("injected: old generation close did not finish cleanly")
+		}
+		var release func()
+		oldC, release = control.VerifC20ControlPlaneWithSessions(cerr, 1+h.r.IntN(3))
+		h.sessionReleases = append(h.sessionReleases, release)
+		reloadStartedAt = reloadStartedAt.Add(-11 * time.Second) // the stages before the hand-off took 11 s
+		h.mon.Count("slow_reload_with_lingering_sessions_planned", 1)
+	}
 	var gate chan struct{}
 	if p.Retire != "fast" {
 		gate = make(chan struct{})
@@ -464,6 +484,25 @@ func (h *c20Round) retirementAbandoned(plan string) bool {
 	return true
 }
 
+// drainExceedsBudget: a retirement is still waiting for the old generation's sessions to drain
+// (goroutine dump) one whole liveness bound after it started although every drain wait in this
+// harness has a budget of zero (sessions are only planned together with a reload that used up the
+// total switch budget) or is skipped (abort / no overlap): the wait ignores its budget.
+func (h *c20Round) drainExceedsBudget(plan string) bool {
+	buf := make([]byte, 8<<20)
+	buf = buf[:runtime.Stack(buf, true)]
+	if !strings.Contains(string(buf), "waitForControlPlaneDrain") {
+		return false
+	}
+	h.violation("retirement-drain-wait-exceeds-budget", fmt.Sprintf("the old generation's retirement is still inside waitForControlPlaneDrain %v after it began although its drain budget is zero (the reload had used up the total switch budget): later requests stay refused and the failure muting stays on", c20Bound),
+		map[string]any{"plan": plan})
+	for _, f := range h.sessionReleases { // let the stuck goroutines go
+		f()
+	}
+	h.sessionReleases = nil
+	return true
+}
+
 // waitAdmission is the never-wedged oracle: after the previous outcome (and
 // once its retirement completed) some request must be admitted again.
 func (h *c20Round) waitAdmission(prev *c20Receipt) bool {
@@ -475,16 +514,26 @@ func (h *c20Round) waitAdmission(prev *c20Receipt) bool {
 			if h.retirementAbandoned(prev.Plan) {
 				return false
 			}
+			if h.drainExceedsBudget(prev.Plan) {
+				return false
+			}
 			h.mon.Inconclusive("retirement goroutine of an empty ControlPlane did not finish within %v", c20Bound)
 			return false
 		}
 	}
 	deadline := time.Now().Add(c20Bound)
+	eager := h.r.IntN(2) == 0
 	for steps := 0; ; steps++ {
 		if e.admitted.Load() > e.processed {
 			if prev != nil {
 				h.mon.Count("readmitted_after/"+prev.Outcome, 1)
 			}
+			return true
+		}
+		// Runner.Run's worker ranges over the channel: it picks a request up the moment it is
+		// queued, possibly while the signal goroutine is still inside queueReloadRequest
+		if eager && len(e.m.reloadReqs) > 0 {
+			h.mon.Count("worker_took_request_before_admission_call_returned", 1)
 			return true
 		}
 		e.attempt(h.r.IntN(3) == 0, "probe", false)
@@ -572,6 +621,11 @@ func (h *c20Round) qfullProbe() {
 }
 
 func (h *c20Round) run() {
+	defer func() {
+		for _, f := range h.sessionReleases {
+			f()
+		}
+	}()
 	e, mon, r := h.e, h.mon, h.r
 	defer func() {
 		if x := recover(); x != nil {
@@ -626,6 +680,9 @@ func (h *c20Round) run() {
 		case <-d:
 		case <-time.After(c20Bound):
 			if h.retirementAbandoned("(end of round)") {
+				return
+			}
+			if h.drainExceedsBudget("(end of round)") {
 				return
 			}
 			mon.Inconclusive("retirement goroutine did not finish within %v", c20Bound)
